@@ -47,6 +47,14 @@ class ConfigOption(Generic[T]):
         self.value = self.valueType()(string)
 
 class BooleanOption(ConfigOption[bool]):
+    def setFromString(self, string: str):
+        # The spellings understood in configuration files are those of
+        # ConfigParser.getboolean: yes/no, true/false, on/off, 1/0
+        try:
+            self.value = ConfigParser.BOOLEAN_STATES[string.strip().lower()]
+        except KeyError:
+            raise ValueError('Not a boolean: %s' % string)
+
     def registerArgparse(self, group: ArgumentGroup):
         enables = [x for x in self.options if x[0] != "!"]
         disables = [x[1:] for x in self.options if x[0] == "!"]
